@@ -191,8 +191,11 @@ func c10Insufficient(pn uint64, n int) bool { return n >= 1 && n < 8 && pn >= ui
 const c10MaxDatagram = 1452 // protocol.MaxPacketBufferSize: the bound the packer enforces
 
 // c10Check compares one captured flight with the spec. Returned keys are relative to the
-// configuration id.
-func c10Check(s *quic.QUICSpec, fl sim.Flight, dial int, prevTokens [][]byte) (fail *explore.Fail, token []byte, class string) {
+// configuration id. startIdx is the number of Initial packet numbers the dial has used before
+// this flight: 0 for the first flight of a dial; for the flight a client re-dials with after a
+// Version Negotiation packet, the packets of the abandoned attempt (packet numbers are not
+// reset, and InitPacketNumberLengths entry [i] belongs to packet number InitPacketNumber+i).
+func c10Check(s *quic.QUICSpec, fl sim.Flight, dial int, prevTokens [][]byte, startIdx uint64) (fail *explore.Fail, token []byte, class string) {
 	ips := &s.InitialPacketSpec
 	all := append(append([]sim.Event{}, fl.First...), fl.Retrans...)
 	if len(fl.First) == 0 {
@@ -244,8 +247,8 @@ func c10Check(s *quic.QUICSpec, fl sim.Flight, dial int, prevTokens [][]byte) (f
 	}
 	// ---- packet numbers
 	const maxPN = uint64(1)<<62 - 1
-	if ips.InitPacketNumber <= maxPN && first[0].Pkt.PN != ips.InitPacketNumber {
-		return explore.Failf("first-pn", "dial %d: first Initial packet number is %d, spec says %d", dial, first[0].Pkt.PN, ips.InitPacketNumber), nil, ""
+	if ips.InitPacketNumber <= maxPN && first[0].Pkt.PN != ips.InitPacketNumber+startIdx {
+		return explore.Failf("first-pn", "dial %d: first Initial packet number is %d, spec says %d (+%d used before this flight)", dial, first[0].Pkt.PN, ips.InitPacketNumber, startIdx), nil, ""
 	}
 	for i := 1; i < len(obs); i++ {
 		if obs[i].Pkt.PN != obs[i-1].Pkt.PN+1 {
@@ -254,7 +257,7 @@ func c10Check(s *quic.QUICSpec, fl sim.Flight, dial int, prevTokens [][]byte) (f
 	}
 	if n := len(ips.InitPacketNumberLengths); n > 0 && ips.InitPacketNumber <= maxPN {
 		for i, o := range obs {
-			want := int(ips.InitPacketNumberLengths[min(i, n-1)])
+			want := int(ips.InitPacketNumberLengths[min(uint64(i)+startIdx, uint64(n-1))])
 			if c10Insufficient(o.Pkt.PN, want) && o.Pkt.PNLen > want {
 				continue // the spec'd length cannot carry this packet number: a longer one is the only decodable choice
 			}
@@ -262,7 +265,7 @@ func c10Check(s *quic.QUICSpec, fl sim.Flight, dial int, prevTokens [][]byte) (f
 				return explore.Failf("pn-length", "dial %d: Initial packet #%d encodes its packet number in %d bytes, spec list says %d", dial, i, o.Pkt.PNLen, want), nil, ""
 			}
 		}
-	} else if ips.InitPacketNumberLength != 0 && ips.InitPacketNumber <= maxPN {
+	} else if ips.InitPacketNumberLength != 0 && ips.InitPacketNumber <= maxPN && startIdx == 0 {
 		if first[0].Pkt.PNLen != int(ips.InitPacketNumberLength) && !(c10Insufficient(first[0].Pkt.PN, int(ips.InitPacketNumberLength)) && first[0].Pkt.PNLen > int(ips.InitPacketNumberLength)) {
 			return explore.Failf("pn-length", "dial %d: first Initial packet encodes its packet number in %d bytes, spec says %d", dial, first[0].Pkt.PNLen, ips.InitPacketNumberLength), nil, ""
 		}
@@ -476,7 +479,7 @@ func c10Run(t *testing.T, cfg c10Config) c10Outcome {
 			out.fail = explore.Failf(cfg.id()+":bubble-failed", "bubble did not terminate cleanly")
 			break
 		}
-		f, tok, class := c10Check(spec, fl, dial, tokens)
+		f, tok, class := c10Check(spec, fl, dial, tokens, 0)
 		if f != nil {
 			f.Key = cfg.id() + ":" + f.Key
 			out.fail = f
@@ -576,5 +579,5 @@ func TestVerifC10(t *testing.T) {
 			return &explore.Violation{Key: o.fail.Key, What: o.fail.What, Human: append([]string{cfg.id()}, o.human...)}
 		},
 	}
-	explore.Main("C10", []explore.Part{part, c10OverlapPart(t)}, func(msg string) { t.Fatal(msg) })
+	explore.Main("C10", []explore.Part{part, c10OverlapPart(t), c10PeerPart(t)}, func(msg string) { t.Fatal(msg) })
 }
